@@ -177,3 +177,14 @@ Theorem python_globals_are_idempotent_lazy_inits :
   List.length py_global_inits_complete_before_publish = List.length py_global_writes /\
   py_mutated_containers = [].
 Proof. vm_compute. repeat split; reflexivity. Qed.
+
+(* while the lock is released the kernels touch the Python C API only through field-reading macros of PyArrayObject, the
+   addresses of exception type objects and the PythonException carrier (no reference counting, no allocation, no error state);
+   the reference counting inside numpy::array_base is guarded separately (refcount_gil) *)
+Definition nogil_allowed : list string :=
+  ["PyArray_DATA"; "PyArray_DIM"; "PyArray_DIMS"; "PyArray_NDIM"; "PyArray_SIZE"; "PyArray_STRIDE"; "PyArray_STRIDES";
+   "PyArray_ITEMSIZE"; "PyArray_TYPE"; "PyArray_GETPTR1"; "PyArray_GETPTR2"; "PyArray_ISCARRAY"; "PyArray_ISCARRAY_RO";
+   "PyExc_ValueError"; "PyExc_RuntimeError"; "PyExc_MemoryError"; "PythonException"; "PyArrayObject"].
+Theorem no_python_api_while_released :
+  forallb (fun e => existsb (String.eqb (snd e)) nogil_allowed) nogil_python_api = true.
+Proof. vm_compute. reflexivity. Qed.
